@@ -680,7 +680,7 @@ class Outcome:
 
 MODELLED = {'append', 'extend', 'append_circuit', 'insert', 'insert_circuit', 'pop', 'batch_pop', 'replace',
             'batch_replace', 'replace_with_circuit', 'unfold', 'unfold_all', 'compress', 'append_qudit',
-            'insert_qudit', 'pop_qudit', 'renumber', 'clear', 'add', 'iadd', 'mul', 'imul'}
+            'insert_qudit', 'pop_qudit', 'renumber', 'clear', 'add', 'iadd', 'mul', 'imul', 'fold'}
 
 
 def apply_impl(c: Circuit, call) -> Outcome:
@@ -810,6 +810,8 @@ def model_cmd(call) -> str | None:
         return f'{k} {fmt(call[1])}'
     if k in ('mul', 'imul'):
         return f'{k} {call[1]}'
+    if k == 'fold':
+        return 'fold ' + fmt(call[1])
     return None
 
 
